@@ -191,7 +191,22 @@ replace %[4]s => %[1]s
 		}
 	}
 	c.AllPkgs = pkgs
-	prog, _ := ssautil.AllPackages(pkgs, ssa.InstantiateGenerics)
+	// SSA bodies for repository packages (and, in whole-program mode, for every
+	// package that came with syntax and type information); everything else is
+	// created from its type information only. (ssautil.AllPackages would hand the
+	// builder syntax without TypesInfo for dependencies re-parsed because of an
+	// overlay.)
+	prog := ssa.NewProgram(fset, ssa.InstantiateGenerics)
+	packages.Visit(pkgs, nil, func(p *packages.Package) {
+		if p.Types == nil || p.IllTyped {
+			return
+		}
+		if p.TypesInfo != nil && len(p.Syntax) > 0 && (isRepoPkg(p.PkgPath) || o.AllSyntax) {
+			prog.CreatePackage(p.Types, p.Syntax, p.TypesInfo, true)
+		} else {
+			prog.CreatePackage(p.Types, nil, nil, true)
+		}
+	})
 	prog.Build()
 	c.Prog = prog
 	for path, p := range c.Pkgs {
